@@ -118,6 +118,9 @@ type Expect struct {
 	Sector   []SectorCase
 	Roots    []RootCase
 	Stream   []StreamCase
+	LRange   []LRangeCase // the sector-root tree at large sizes (MerkleLarge.tla)
+	LAppend  []LAppendCase
+	LFree    []LFreeCase
 }
 
 type Viol struct {
@@ -259,7 +262,11 @@ func runSide(expPath, outPath string) {
 		os.Exit(2)
 	}
 	g := &side{exp: exp, res: &Result{AVX2: cpu.X86.HasAVX2, GODEBUG: os.Getenv("GODEBUG"), NumCPU: runtime.NumCPU(), Counts: map[string]int64{}}}
-	g.leaves = genHashes(exp.Seed, 1, 70001)
+	nLeaves := 70001
+	if m := exp.largeNeed() + 1; m > nLeaves {
+		nLeaves = m
+	}
+	g.leaves = genHashes(exp.Seed, 1, nLeaves)
 	g.apps = genHashes(exp.Seed, 2, 64)
 	if p, v := vlib.Recover(func() {
 		if exp.Only == "" {
@@ -269,6 +276,7 @@ func runSide(expPath, outPath string) {
 			g.freeFamily()
 			g.appendFamily()
 			g.writeFamily()
+			g.largeFamily()
 		}
 		g.sectorFamily()
 	}); p {
@@ -952,7 +960,7 @@ func (g *side) sectorFamily() {
 		})
 	}
 	// --- roots of n leaves: MetaRoot of n hashes, ReaderRoot of n*64 bytes
-	big := newEnv(g.leaves, nil)
+	big := newEnv(g.leaves[:70001], nil)
 	for ci := range g.exp.Roots {
 		c := g.exp.Roots[ci]
 		cs := map[string]any{"family": "roots", "case": c, "avx2": g.res.AVX2}
